@@ -330,3 +330,8 @@ impl<T: crate::Transport + Unpin> crate::Transport for Transport<T> {
         Pin::new(&mut self.inner).poll(cx)
     }
 }
+
+#[cfg(kani)]
+pub(crate) mod verif {
+    include!(concat!(env!("LIBP2P_VERIF"), "/hooks/core_transport_global_only.rs"));
+}
